@@ -81,9 +81,11 @@ static void put_generated (vf_rng *r, pixman_format_code_t f, uint8_t *row, int 
     vf_put_px (row, bpp, x, raw);
 }
 
-typedef struct { vf_buf buf; pixman_image_t *img; pixman_format_code_t fmt; int solid; uint8_t solid8[4]; int w; } operand_t;
+typedef struct { vf_buf buf; pixman_image_t *img; pixman_format_code_t fmt; int solid; uint8_t solid8[4]; int w;
+                 int xo, yo;        /* offset of the request inside the image (shared-storage operands only; 0 otherwise) */
+                 int borrowed;      /* the storage belongs to another operand */ } operand_t;
 
-static void operand_free (operand_t *o) { if (o->img) pixman_image_unref (o->img); if (!o->solid) vf_buf_free (&o->buf); memset (o, 0, sizeof *o); }
+static void operand_free (operand_t *o) { if (o->img) pixman_image_unref (o->img); if (!o->solid && !o->borrowed) vf_buf_free (&o->buf); memset (o, 0, sizeof *o); }
 
 /* kind: 0 bits image of width n, 1 solid fill, 2 1x1 repeating bits */
 static int operand_make (operand_t *o, vf_rng *r, pixman_format_code_t f, int n, int kind, int premult)
@@ -108,13 +110,13 @@ static void operand_px8 (const operand_t *o, int x, uint8_t p[4])
 {
     if (o->solid) { memcpy (p, o->solid8, 4); return; }
     if (o->w == 1) x = 0;
-    rp_decode8 (o->fmt, vf_get_px (vf_buf_row (&o->buf, 0), o->buf.bpp, x), p);
+    rp_decode8 (o->fmt, vf_get_px (vf_buf_row (&o->buf, o->yo), o->buf.bpp, x + o->xo), p);
 }
 static void operand_pxf (const operand_t *o, int x, double p[4])
 {
     if (o->solid) { for (int c = 0; c < 4; c++) p[c] = o->solid8[c] / 255.0; return; }
     if (o->w == 1) x = 0;
-    rp_decodef_row (o->fmt, vf_buf_row (&o->buf, 0), x, p);
+    rp_decodef_row (o->fmt, vf_buf_row (&o->buf, o->yo), x + o->xo, p);
 }
 
 static const char *mode_name[] = { "nomask", "unified", "ca" };
@@ -134,6 +136,9 @@ static void c01_case (long idx, vf_rng *r)
     int skind = (int)(vf_next (r) % 6); skind = skind < 4 ? 0 : skind - 3;           /* 0 bits, 1 solid, 2 1x1 repeat */
     int mkind = (int)(vf_next (r) % 6); mkind = mkind < 4 ? 0 : mkind - 3;
     if (exhaustive_alpha) skind = mkind = 0;
+    int shared_pair = !exhaustive_alpha && mode == RO_UNIFIED && vf_chance (r, 1, 8);
+    if (shared_pair) { int bgr = vf_chance (r, 1, 2); sf = bgr ? PIXMAN_x8b8g8r8 : PIXMAN_x8r8g8b8; mf = bgr ? PIXMAN_a8b8g8r8 : PIXMAN_a8r8g8b8; skind = mkind = 0; if (vf_chance (r, 1, 2)) op = PIXMAN_OP_OVER;
+        if (vf_chance (r, 2, 3)) { static const pixman_format_code_t pd[] = { PIXMAN_a8r8g8b8, PIXMAN_x8r8g8b8, PIXMAN_r5g6b5, PIXMAN_a8b8g8r8, PIXMAN_x8b8g8r8, PIXMAN_b5g6r5 }; df = VF_PICK (r, pd); } }
     if (skind == 1) sf = PIXMAN_a8r8g8b8;          /* a solid fill has no storage format; it is a narrow operand */
     if (mkind == 1) mf = PIXMAN_a8r8g8b8;
     int narrow = !rp_is_wide (df) && !rp_is_wide (sf) && (mode == RO_NOMASK || !rp_is_wide (mf)) && !ro_needs_float (op);
@@ -142,8 +147,22 @@ static void c01_case (long idx, vf_rng *r)
     int premult = !exact || vf_chance (r, 1, 2);
     if (ro_is_hsl (op) && mode == RO_CA) { vf_count ("skipped_hsl_ca", 1); return; }      /* not claimed: equations undefined */
     operand_t S, M, D; memset (&M, 0, sizeof M);
+    if (shared_pair) {
+        /* source and mask are two views (x888 / a888) of ONE pixel buffer, as GdkPixbuf users do; the offsets of the two views differ in
+         * general (only equal offsets make it the "pixbuf" case the library has special routines for) */
+        memset (&S, 0, sizeof S); S.fmt = sf; S.w = n + 3;
+        if (!vf_buf_alloc (&S.buf, sf, n + 3, 3, (int)(vf_next (r) % 2), 0, vf_default_place (r))) return;
+        for (int y = 0; y < 3; y++) for (int x = 0; x < n + 3; x++) { uint8_t p8[4]; gen8 (r, 0, p8); vf_put_px (vf_buf_row (&S.buf, y), 32, x, rp_encode8 (mf, p8)); }
+        S.img = vf_buf_image (&S.buf); if (!S.img) { vf_buf_free (&S.buf); return; }
+        M = S; M.fmt = mf; M.borrowed = 1; M.buf.fmt = mf; M.img = pixman_image_create_bits (mf, n + 3, 3, S.buf.bits, S.buf.stride);
+        if (!M.img) { operand_free (&S); return; }
+        S.xo = (int)(vf_next (r) % 3); S.yo = (int)(vf_next (r) % 3); M.xo = (int)(vf_next (r) % 3); M.yo = (int)(vf_next (r) % 3);
+        if (vf_chance (r, 1, 3)) { M.xo = S.xo; M.yo = S.yo; }
+        S.w = M.w = n + 3;
+    } else {
     if (!operand_make (&S, r, sf, n, skind, premult)) return;
     if (mode != RO_NOMASK) { if (!operand_make (&M, r, mf, n, mkind, 0)) { operand_free (&S); return; } if (mode == RO_CA) pixman_image_set_component_alpha (M.img, 1); }
+    }
     if (!operand_make (&D, r, df, n, 0, premult)) { operand_free (&S); if (mode != RO_NOMASK) operand_free (&M); return; }
     if (exhaustive_alpha) {
         /* all 256 source alphas in this row x destination alpha = case-derived value; colours from a 32x32 lattice */
@@ -156,10 +175,12 @@ static void c01_case (long idx, vf_rng *r)
         }
     }
     vf_buf_snapshot (&D.buf);
-    vf_case_desc ("op=%s mask=%s src=%s%s mask_fmt=%s%s dst=%s n=%d chain='%s'", ro_op_name (op), mode_name[mode], rp_name (sf), skind == 1 ? "(solid)" : skind == 2 ? "(1x1 repeat)" : "",
-                  mode ? rp_name (mf) : "-", mkind == 1 ? "(solid)" : mkind == 2 ? "(1x1 repeat)" : "", rp_name (df), n, vf_chain_env ());
+    char shd[96]; shd[0] = 0; if (shared_pair) snprintf (shd, sizeof shd, " [one buffer: source view at (%d,%d), mask view at (%d,%d)]", S.xo, S.yo, M.xo, M.yo);
+    vf_case_desc ("op=%s mask=%s src=%s%s mask_fmt=%s%s dst=%s n=%d chain='%s'%s", ro_op_name (op), mode_name[mode], rp_name (sf), skind == 1 ? "(solid)" : skind == 2 ? "(1x1 repeat)" : "",
+                  mode ? rp_name (mf) : "-", mkind == 1 ? "(solid)" : mkind == 2 ? "(1x1 repeat)" : "", rp_name (df), n, vf_chain_env (), shd);
     vf_inflight ("composite32 op=%s mask=%s src=%s mask_fmt=%s dst=%s n=%d", ro_op_name (op), mode_name[mode], rp_name (sf), mode ? rp_name (mf) : "-", rp_name (df), n);
-    pixman_image_composite32 (op, S.img, mode ? M.img : NULL, D.img, 0, 0, 0, 0, 0, 0, n, 1);
+    pixman_image_composite32 (op, S.img, mode ? M.img : NULL, D.img, S.xo, S.yo, M.xo, M.yo, 0, 0, n, 1);
+    if (shared_pair) { vf_count (S.xo == M.xo && S.yo == M.yo ? "shared_storage_pairs_same_offsets" : "shared_storage_pairs_different_offsets", 1); }
 
     const char *oracle = exact ? "exact" : narrow ? "int-blend" : "float";
     vf_label ("op_mode_oracle", "%s/%s/%s", ro_op_name (op), mode_name[mode], oracle);
@@ -188,8 +209,8 @@ static void c01_case (long idx, vf_rng *r)
             int edge = (s8[0] == 0) + 2 * (s8[0] == 255) + 4 * (d8[0] == 0) + 8 * (d8[0] == 255) + 16 * (m8[0] == 0) + 32 * (m8[0] == 255);
             if (x < 4) vf_cell ("cells", vf_mix (vf_mix (op * 4 + pmode, (uint32_t)df), vf_mix ((uint32_t)sf ^ ((uint32_t)mf << 1), edge + 64 * (skind + 3 * mkind))));
             if ((want ^ got) & defined) {
-                char key[128]; snprintf (key, sizeof key, "C01:pexact-mismatch:%s:%s", ro_op_name (op), mode_name[mode]);
-                DEFER (key, "pixel %d: src=%02x%02x%02x%02x mask=%02x%02x%02x%02x dst=%02x%02x%02x%02x (a,r,g,b) -> got raw %08x, pexact rule gives %08x (argb %02x%02x%02x%02x), defined bits %08x",
+                char key[128]; snprintf (key, sizeof key, "C01:exact-mismatch:%s:%s", ro_op_name (op), mode_name[mode]);
+                DEFER (key, "pixel %d: src=%02x%02x%02x%02x mask=%02x%02x%02x%02x dst=%02x%02x%02x%02x (a,r,g,b) -> got raw %08x, exact rule gives %08x (argb %02x%02x%02x%02x), defined bits %08x",
                               x, s8[0], s8[1], s8[2], s8[3], m8[0], m8[1], m8[2], m8[3], d8[0], d8[1], d8[2], d8[3], got, want, e8[0], e8[1], e8[2], e8[3], defined);
                 reported = 1;
             }
